@@ -2204,6 +2204,264 @@ def cleanup_independence_rule(chk, rid, repo, pv, cu, at):
         chk.ob(rid, text, True, at, f"{len(worlds)} model file systems" + (f"; in {reported} of them cleanup raises (the failure is reported)" if reported else ""))
 
 
+# ---- cleanup is reached: the callers of cleanup ------------------------------------------------------------------------------------------------------------------------
+_M = "esrally/mechanic/mechanic.py"
+_LOOPS = (ast.For, ast.AsyncFor, ast.While)
+_COND_EXPR = (ast.IfExp, ast.BoolOp, ast.Lambda, ast.ListComp, ast.SetComp, ast.DictComp, ast.GeneratorExp)
+_ITER_WRAPPERS = ("list", "tuple", "iter", "reversed", "sorted")
+
+
+def _is_cleanup_call(call, mod, pv):
+    """a call of provisioner.cleanup written in module `mod` (resolved through the import table of that module)"""
+    d = dotted(call.func)
+    if not d:
+        return False
+    head, _, rest = d.partition(".")
+    target = mod.imports.get(head)
+    full = (target + ("." + rest if rest else "")) if target else (f"{mod.modname}.{d}" if mod is pv or mod.relpath == pv.relpath else None)
+    return full == f"{pv.modname}.cleanup"
+
+
+def _unconditional_calls(stmt):
+    """the calls a simple statement certainly evaluates (not those under a conditional expression, a short-circuit operator, a lambda or a comprehension)"""
+    if not isinstance(stmt, (ast.Expr, ast.Assign, ast.AnnAssign, ast.AugAssign, ast.Return)):
+        return []
+    out = []
+    for c in source.walk_local(stmt):
+        if isinstance(c, ast.Call):
+            p, cond = getattr(c, "_parent", None), False
+            while p is not None and p is not stmt:
+                if isinstance(p, _COND_EXPR):
+                    cond = True
+                    break
+                p = getattr(p, "_parent", None)
+            if not cond:
+                out.append(c)
+    return out
+
+
+class _CleanupReach:
+    """Which functions of a module CERTAINLY clean up: every path from the entry to a normal return passes a statement that calls provisioner.cleanup, calls (unconditionally) a
+    function / method of the same module that certainly cleans up, or is a loop every iteration of which certainly does (the loop over the node configurations)."""
+
+    def __init__(self, mod, pv):
+        self.mod, self.pv = mod, pv
+        self.memo = {}
+
+    def callee(self, call, func):
+        f = call.func
+        if isinstance(f, ast.Name):
+            g = self.mod.get(f.id, required=False)
+            return g if isinstance(g, source.FUNC_TYPES) else None
+        if isinstance(f, ast.Attribute) and isinstance(f.value, ast.Name) and f.value.id in ("self", "cls"):
+            c = source.enclosing_class(func)
+            if c is not None:
+                return self.mod.methods(c).get(f.attr)
+        return None
+
+    def sites(self, func):
+        """(statement, cleanup call or None, callee or None) for the statements of func that clean up directly or through a callee that certainly cleans up"""
+        out = []
+        for s in source.walk_local(func, include_root=False):
+            for c in _unconditional_calls(s) if isinstance(s, ast.stmt) else ():
+                if _is_cleanup_call(c, self.mod, self.pv):
+                    out.append((s, c, None))
+                else:
+                    g = self.callee(c, func)
+                    if g is not None and g is not func and self.certain(g)[0]:
+                        out.append((s, None, g))
+        return out
+
+    def mentions(self, func, depth=0):
+        """func contains a cleanup call somewhere (however conditional), itself or through a local callee"""
+        for c in source.walk_local(func, include_root=False):
+            if isinstance(c, ast.Call):
+                if _is_cleanup_call(c, self.mod, self.pv):
+                    return True
+                g = self.callee(c, func)
+                if g is not None and g is not func and depth < 4 and self.mentions(g, depth + 1):
+                    return True
+        return False
+
+    def certain(self, func):
+        """(certainly cleans up, the statements that do, the loops every iteration of which does)"""
+        k = id(func)
+        if k in self.memo:
+            return self.memo[k]
+        self.memo[k] = (False, [], [])  # recursion: not certain
+        g = cfg_of(func)
+        sites = self.sites(func)
+
+        def loop_of(n):
+            p = getattr(n, "_parent", None)
+            while p is not None and p is not func:
+                if isinstance(p, _LOOPS):
+                    return p
+                p = getattr(p, "_parent", None)
+            return None
+
+        loops = [n for n in source.walk_local(func, include_root=False) if isinstance(n, _LOOPS)]
+        good_loops = []
+
+        def through(container):
+            t = [s for s, _, _ in sites if loop_of(s) is container]
+            for lp in loops:
+                if loop_of(lp) is container and loop_ok(lp):
+                    t.append(lp)
+            return t
+
+        def loop_ok(lp):
+            t = through(lp)
+            if not t or not lp.body:
+                return False
+            nodes = [x for s in t for x in g.nodes_of(s)]
+            ok = g.must_pass(g.node_of(lp.body[0]), nodes, exits=[g.exit] + g.nodes_of(lp))
+            if ok:
+                good_loops.append(lp)
+            return ok
+
+        top = through(None)
+        nodes = [x for s in top for x in g.nodes_of(s)]
+        ok = bool(nodes) and g.must_pass(g.entry, nodes)
+        self.memo[k] = (ok, top, good_loops)
+        return self.memo[k]
+
+
+def _launcher_stops(func, mod):
+    """calls `<launcher object>.stop(nodes, ...)` in func: the receiver is built from a class of the launcher module or carries the launcher in its name"""
+    defs = local_defs(func)
+    out = []
+    for c in source.calls_in(func, attr="stop"):
+        if not isinstance(c.func, ast.Attribute) or not (c.args or c.keywords):
+            continue
+        recv = c.func.value
+        names = [u(recv)]
+        if isinstance(recv, ast.Name):
+            names += [u(n.value) for n in walk_body(func) if isinstance(n, ast.Assign) and any(isinstance(t, ast.Name) and t.id == recv.id for t in n.targets)]
+        if any("launcher" in n.lower() for n in names):
+            out.append(c)
+    return out
+
+
+def _setting_key(expr):
+    """(section, key) of a configuration read `<cfg>.opts(section, key, ...)`"""
+    if isinstance(expr, ast.Call) and last_attr(expr.func) == "opts" and len(expr.args) >= 2 and all(isinstance(a, ast.Constant) and isinstance(a.value, str) for a in expr.args[:2]):
+        return expr.args[0].value, expr.args[1].value
+    return None
+
+
+def _resolve_value(expr, func, mod, depth=0):
+    """follow a local assigned once / an attribute of self assigned in exactly one place of the class to the expression that defines it"""
+    if depth > 4:
+        return expr
+    if isinstance(expr, ast.Name):
+        d = local_defs(func).get(expr.id)
+        return _resolve_value(d, func, mod, depth + 1) if d is not None else expr
+    if is_self_attr(expr):
+        c = source.enclosing_class(func)
+        if c is not None:
+            stores = [(n, f) for f in mod.methods(c).values() for n in walk_body(f) if isinstance(n, ast.Assign) and any(is_self_attr(t, expr.attr) for t in n.targets)]
+            if len(stores) == 1:
+                return _resolve_value(stores[0][0].value, stores[0][1], mod, depth + 1)
+    return expr
+
+
+def cleanup_reached_rule(chk, rid, repo, pv):
+    """'cleanup removes the installation and all data paths unless preserve-install is set' is a statement about STOPPING A NODE, not about the function cleanup alone: (a) every
+    function that stops the nodes through a launcher, and every function that cleans up at all, cleans up on EVERY path that returns normally - for every node configuration (the
+    loop body certainly calls it) - whatever else happened on the way (race not found, no metrics store, no results); (b) the call hands over the preserve-install setting, and the
+    binary path and the data paths of ONE node configuration."""
+    mod = repo.module(_M)
+    chk.use(mod)
+    reach = _CleanupReach(mod, pv)
+    funcs = [f for f in mod.functions() if _launcher_stops(f, mod) or reach.mentions(f)]
+    if not any(_launcher_stops(f, mod) for f in funcs):
+        raise AnchorMissing(f"{_M}: no function stops the nodes through a launcher (`<launcher>.stop(nodes, ...)`)")
+    text_a = "a function that stops the nodes / that cleans up reaches provisioner.cleanup on every path that returns normally, for every node configuration"
+    text_b = "cleanup receives preserve = the preserve.install setting, install_dir = the binary path and data_paths = the data paths of the same node configuration"
+    calls = []
+    for f in funcs:
+        ok, top, good = reach.certain(f)
+        direct = [(s, c) for s, c, _ in reach.sites(f) if c is not None]
+        calls += [(f, s, c) for s, c in direct]
+        stops = _launcher_stops(f, mod)
+        at = stops[0] if stops else (direct[0][1] if direct else f)
+        name = source.qualname(f)
+        if ok:
+            chk.ob(rid, f"{text_a}: {name}", True, at, "")
+            continue
+        anywhere = [c for c in source.walk_local(f, include_root=False) if isinstance(c, ast.Call) and (_is_cleanup_call(c, mod, pv) or (reach.callee(c, f) is not None and reach.mentions(reach.callee(c, f))))]
+        tests = [t for c in anywhere for t, _ in guards(c, path_sensitive=True)]
+        if any("preserve" in u(t).lower() for t in tests):
+            chk.unknown(rid, f"{text_a}: {name} cleans up under a condition on the preserve setting - not recognised", at)
+            continue
+        if not anywhere:
+            why = "stops the nodes through the launcher but never calls provisioner.cleanup (nor a function of this module that does)"
+        else:
+            conds = sorted({short(t, 60) for t in tests}) or ["an early return / a loop that may skip it"]
+            why = (f"there is a path to a normal return on which provisioner.cleanup (line {anywhere[0].lineno}) is not called - it depends on {', '.join(conds)}: the installation and "
+                   "the data paths stay on disk although preserve-install is not set")
+        chk.ob(rid, f"{text_a}: {name}", False, at, f"{name} {why}")
+    if not calls:
+        raise AnchorMissing(f"{_M}: no call of provisioner.cleanup")
+    ps = params_of(pv.func("cleanup"))
+    if len(ps) < 3:
+        raise AnchorMissing("cleanup(preserve, install_dir, data_paths)")
+    for f, s, c in calls:
+        name = source.qualname(f)
+        b = source.bind_args(c, pv.func("cleanup"), skip_self=False)
+        if any(isinstance(a, ast.Starred) for a in c.args) or any(k.arg is None for k in c.keywords) or not all(p in b for p in ps[:3]):
+            chk.unknown(rid, f"{text_b}: {name}: the arguments of the call cannot be told apart", c)
+            continue
+        pres, inst, data = (b[p] for p in ps[:3])
+        bad, blind = [], []
+        rp = _resolve_value(pres, f, mod)
+        sk = _setting_key(rp)
+        if isinstance(rp, ast.Constant):
+            bad.append(f"preserve is the constant {rp.value!r}, not the preserve-install setting")
+        elif sk is not None:
+            if sk[1] != "preserve.install":
+                bad.append(f"preserve is read from the setting {sk!r}, not from preserve.install")
+        elif isinstance(rp, ast.UnaryOp) and isinstance(rp.op, ast.Not) and _setting_key(_resolve_value(rp.operand, f, mod)) is not None:
+            bad.append(f"preserve is the NEGATED setting ({short(rp, 60)})")
+        else:
+            blind.append(f"preserve = {short(rp, 60)}")
+        ri, rd = _resolve_value(inst, f, mod), _resolve_value(data, f, mod)
+        if isinstance(ri, ast.Attribute) and isinstance(rd, ast.Attribute):
+            if ri.attr != "binary_path":
+                bad.append(f"install_dir is {short(ri, 60)}, not the binary path of the node configuration")
+            if rd.attr != "data_paths":
+                bad.append(f"data_paths is {short(rd, 60)}, not the data paths of the node configuration")
+            if u(ri.value) != u(rd.value):
+                bad.append(f"install_dir and data_paths come from different objects ({short(ri.value, 40)} / {short(rd.value, 40)})")
+        else:
+            for what, r, attr in (("install_dir", ri, "binary_path"), ("data_paths", rd, "data_paths")):
+                if isinstance(r, (ast.Constant, ast.List, ast.Tuple)) and not getattr(r, "elts", None):
+                    bad.append(f"{what} is the constant {short(r, 40)}")
+                elif not (isinstance(r, ast.Attribute) and r.attr == attr):
+                    blind.append(f"{what} = {short(r, 60)}")
+        lp = getattr(s, "_parent", None)
+        while lp is not None and lp is not f and not isinstance(lp, _LOOPS):
+            lp = getattr(lp, "_parent", None)
+        if isinstance(lp, (ast.For, ast.AsyncFor)) and isinstance(ri, ast.Attribute) and u(ri.value) == u(lp.target):
+            it = lp.iter
+            while isinstance(it, ast.Call) and isinstance(it.func, ast.Name) and it.func.id in _ITER_WRAPPERS and len(it.args) == 1:
+                it = it.args[0]
+            it = _resolve_value(it, f, mod)
+            if isinstance(it, ast.Subscript) and isinstance(it.slice, ast.Slice):
+                bad.append(f"the loop runs over a part of the node configurations only ({short(lp.iter, 60)})")
+            elif isinstance(it, (ast.ListComp, ast.GeneratorExp)) and any(g.ifs for g in it.generators):
+                bad.append(f"the loop filters the node configurations ({short(lp.iter, 60)})")
+            elif not isinstance(it, (ast.Name, ast.Attribute)):
+                blind.append(f"loop over {short(lp.iter, 60)}")
+        if bad:
+            chk.ob(rid, f"{text_b}: {name}", False, c, "; ".join(bad))
+        elif blind:
+            chk.unknown(rid, f"{text_b}: {name}: not recognised ({'; '.join(blind)})", c)
+        else:
+            chk.ob(rid, f"{text_b}: {name}", True, c, "")
+
+
 # ---- template mirroring on values ------------------------------------------------------------------------------------------------------------------------------------------
 _S1, _S2 = "/team/cars/v1/b1/templates", "/team/cars/v1/b2/templates"
 # directory (relative to the source root) -> file names. Two files named elasticsearch.yml in different directories of one base (Jinja caches templates by loader and NAME),
@@ -2852,12 +3110,18 @@ def run(chk):
              "a plugin variable / plugin parameter (or any later user source) named http_port, network_host, node_name, data_paths, ... replaces Rally's value in the rendered "
              "elasticsearch.yml while Rally itself (launcher, telemetry, cleanup) keeps using its own")
 
+    chk.rule("O13.6", "stopping a node cleans up: every function that stops the nodes through a launcher (and every function that calls provisioner.cleanup at all) reaches "
+             "provisioner.cleanup on every path that returns normally, once for every node configuration, whatever else happened on the way (race not found, no metrics store); the "
+             "call hands over the preserve.install setting and the binary path + data paths of one and the same node configuration", 3,
+             "`esrally stop` of a node whose race is unknown to the race store (never benchmarked, deleted, other machine): installation and data paths stay on disk although "
+             "preserve-install is off; or the wrong directory / no data paths / a constant preserve flag are handed to cleanup")
     _section(chk, "O13.1", "car loader (team.load_car / CarLoader.load_car)", lambda: team_rules(chk, repo, tm))
     st = {}
     _section(chk, "O13.1", "variables of the installer / provisioners", lambda: installer_rules(chk, repo, pv, st))
     _section(chk, "O13.3", "template mirroring", lambda: mirroring_rules(chk, repo, pv, st))
     _section(chk, "O13.4", "cleanup", lambda: cleanup_rules(chk, repo, pv))
     _section(chk, "O13.5", "variables the templates are rendered with", lambda: rendered_variables_rules(chk, repo, pv, st))
+    _section(chk, "O13.6", "the callers of cleanup", lambda: cleanup_reached_rule(chk, "O13.6", repo, pv))
 
 
 from sa.selftest import V  # noqa: E402
@@ -3064,4 +3328,25 @@ VARIANTS = [
     V("s5 keep: EAFP in delete_path (FileNotFoundError ignored instead of the exists test)", "keep", _P,
       "        if os.path.exists(p):\n            try:\n                logger.debug(\"Deleting [%s].\", p)\n                shutil.rmtree(p)\n            except OSError:\n                logger.exception(\"Could not delete [%s]. Skipping...\", p)\n",
       "        try:\n            logger.debug(\"Deleting [%s].\", p)\n            shutil.rmtree(p)\n        except FileNotFoundError:\n            pass\n        except OSError:\n            logger.exception(\"Could not delete [%s]. Skipping...\", p)\n"),
+    # O13.6: the callers of cleanup (stop sub-command, Mechanic.stop_engine)
+    V("seed m18: stop cleans up only when the race is known to the race store", "break", _M, "        metrics_store.close()\n\n    provisioner.cleanup(\n        preserve=cfg.opts(\"mechanic\", \"preserve.install\"), install_dir=node_config.binary_path, data_paths=node_config.data_paths\n    )\n",
+      "        metrics_store.close()\n\n        provisioner.cleanup(\n            preserve=cfg.opts(\"mechanic\", \"preserve.install\"), install_dir=node_config.binary_path, data_paths=node_config.data_paths\n        )\n", "O13.6"),
+    V("s6 break: stop returns early when the race was not found", "break", _M, "    _delete_node_file(root_path)\n\n    if current_race:\n", "    _delete_node_file(root_path)\n\n    if current_race is None:\n        return\n    if current_race:\n", "O13.6"),
+    [V("s6 break: stop_engine cleans up inside the try block that stores the results (skipped when the race is not found)", "break", _M,
+       "                self._add_results(current_race, node)\n        except exceptions.NotFound as e:",
+       "                self._add_results(current_race, node)\n            for node_config in self.node_configs:\n                provisioner.cleanup(preserve=self.preserve_install, install_dir=node_config.binary_path, data_paths=node_config.data_paths)\n        except exceptions.NotFound as e:", "O13.6"),
+     V("", "break", _M, "        self.nodes = []\n        for node_config in self.node_configs:\n            provisioner.cleanup(preserve=self.preserve_install, install_dir=node_config.binary_path, data_paths=node_config.data_paths)\n        self.node_configs = []\n", "        self.nodes = []\n        self.node_configs = []\n")],
+    V("s6 break: stop_engine skips node configurations in its loop", "break", _M, "        for node_config in self.node_configs:\n            provisioner.cleanup(", "        for node_config in self.node_configs:\n            if node_config.build_type == \"docker\":\n                continue\n            provisioner.cleanup(", "O13.6"),
+    V("s6 break: stop_engine cleans up all but the first node configuration", "break", _M, "        for node_config in self.node_configs:\n            provisioner.cleanup(", "        for node_config in self.node_configs[1:]:\n            provisioner.cleanup(", "O13.6"),
+    V("s6 break: stop never cleans up", "break", _M, "    provisioner.cleanup(\n        preserve=cfg.opts(\"mechanic\", \"preserve.install\"), install_dir=node_config.binary_path, data_paths=node_config.data_paths\n    )\n", "    logging.getLogger(__name__).info(\"Stopped.\")\n", "O13.6"),
+    V("s6 break: the node root instead of the binary path", "break", _M, "preserve=cfg.opts(\"mechanic\", \"preserve.install\"), install_dir=node_config.binary_path,", "preserve=cfg.opts(\"mechanic\", \"preserve.install\"), install_dir=node_config.node_root_path,", "O13.6"),
+    V("s6 break: the preserve flag is a constant", "break", _M, "preserve=cfg.opts(\"mechanic\", \"preserve.install\"), install_dir", "preserve=False, install_dir", "O13.6"),
+    V("s6 break: preserve read from another setting", "break", _M, "        self.preserve_install = cfg.opts(\"mechanic\", \"preserve.install\")", "        self.preserve_install = cfg.opts(\"mechanic\", \"skip.rest.api.check\")", "O13.6"),
+    V("s6 break: no data paths handed over", "break", _M, "provisioner.cleanup(preserve=self.preserve_install, install_dir=node_config.binary_path, data_paths=node_config.data_paths)", "provisioner.cleanup(preserve=self.preserve_install, install_dir=node_config.binary_path, data_paths=[])", "O13.6"),
+    [V('s6 keep: the cleanup loop of stop_engine in a helper method', "keep", _M, '        for node_config in self.node_configs:\n            provisioner.cleanup(preserve=self.preserve_install, install_dir=node_config.binary_path, data_paths=node_config.data_paths)\n        self.node_configs = []\n', '        self._wipe_installations()\n', 'O13.6'),
+     V('', "keep", _M, '    def _current_race(self):\n', '    def _wipe_installations(self):\n        for node_config in list(self.node_configs):\n            provisioner.cleanup(preserve=self.preserve_install, install_dir=node_config.binary_path, data_paths=node_config.data_paths)\n        self.node_configs = []\n\n    def _current_race(self):\n')],
+    [V('s6 keep: stop reads the setting first, guard clause around the results, positional arguments', "keep", _M, '    node_launcher.stop(nodes, metrics_store)\n    _delete_node_file(root_path)\n', '    keep = cfg.opts("mechanic", "preserve.install")\n    node_launcher.stop(nodes, metrics_store)\n    _delete_node_file(root_path)\n', 'O13.6'),
+     V('', "keep", _M, '    provisioner.cleanup(\n        preserve=cfg.opts("mechanic", "preserve.install"), install_dir=node_config.binary_path, data_paths=node_config.data_paths\n    )\n', '    binaries = node_config.binary_path\n    provisioner.cleanup(keep, binaries, node_config.data_paths)\n')],
+    [V('s6 keep: results stored in a helper that returns early without a race', "keep", _M, '    if current_race:\n        metrics_store.flush(refresh=True)\n        for node in nodes:\n            results = metrics.calculate_system_results(metrics_store, node.node_name)\n            current_race.add_results(results)\n            metrics.results_store(cfg).store_results(current_race)\n\n        metrics_store.close()\n', '    _persist_results(cfg, current_race, metrics_store, nodes)\n', 'O13.6'),
+     V('', "keep", _M, 'def _load_node_file(root_path):\n', 'def _persist_results(cfg, current_race, metrics_store, nodes):\n    if not current_race:\n        return\n    metrics_store.flush(refresh=True)\n    for node in nodes:\n        results = metrics.calculate_system_results(metrics_store, node.node_name)\n        current_race.add_results(results)\n        metrics.results_store(cfg).store_results(current_race)\n    metrics_store.close()\n\n\ndef _load_node_file(root_path):\n')],
 ]
